@@ -87,6 +87,8 @@ WHITELIST = [
     ("generate_ordered_map_to_left_both_unique", ["arr", "arr", "arr", "int"]),
     ("generate_ordered_map_to_left_right_unique", ["arr", "arr", "arr", "int"]),
     ("ordered_inner_map_both_unique", ["arr", "arr", "arr", "arr"]),
+    ("apply_spans_index_of_min_indexed", ["arr", "arr", "arr", "opt_arr"]),
+    ("apply_spans_index_of_max_indexed", ["arr", "arr", "arr", "opt_arr"]),
 ]
 
 LEAN_T = {"int": "Int", "bool": "Bool", "arr": "List Int", "barr": "List Bool", "opt_arr": "Option (List Int)",
